@@ -30,11 +30,10 @@ Proof. exact no_deadlock. Qed.
 Theorem C06_fsdb_lock_order : forallb strictly_increasing fsdb_lock_sequences = true.
 Proof. exact fsdb_lock_order_strict. Qed.
 
-(* Reads are NOT atomic in the faithful model: the version is resolved under the lock, the content
-   record and the file are fetched afterwards with no lock or pin.  An overwrite plus a collection
-   pass in between make the read fail although the key had a value throughout (defect D11,
-   recorded as a known finding and reproduced on the real code with a pause point on every run) *)
-Theorem C06_read_atomic_refuted :
+(* Reads were NOT atomic before their repair: the version is resolved under the lock, the content record and the file
+   are fetched afterwards with no lock or pin.  An overwrite plus a collection pass in between made the read fail
+   although the key had a value throughout (defect D11, repaired for Get/GetReader by a fix: commit; witness kept) *)
+Theorem C06_read_atomic_refuted_orig :
   let m0 := mstate_after m_init [OSet 0 1 10] in
   let m1 := gc (fst (mstep m0 (OSet 0 1 11))) in
   read m0 (mktx 0 RC 0) 1 = Some 10 /\ read m1 (mktx 0 RC 0) 1 = Some 11 /\
@@ -42,13 +41,45 @@ Theorem C06_read_atomic_refuted :
   read_two_step m0 m1 (mktx 0 RC 0) 1 = None.
 Proof. exact read_atomic_refuted. Qed.
 
-(* what does hold: if no physical deletion touches the resolved version between the two steps,
+(* what holds of one attempt: if no physical deletion touches the resolved version between the two steps,
    the read returns what the atomic read at the moment of the look-up returns *)
 Theorem C06_read_linearizable_partial :
   forall m m' x k,
     (forall v, find_version m x k = Some v -> aget (m_cont m') (v_cid v) = aget (m_cont m) (v_cid v)) ->
     read_two_step m m' x k = read m x k.
 Proof. exact read_two_step_partial. Qed.
+
+(* the repaired read resolves the version again when its content is gone: on the schedule of the witness it returns the
+   new value, and in general (contents immutable; no deletion touches the RE-resolved version before it is fetched) it
+   returns the atomic read at the first look-up or the atomic read at the second: it is linearizable *)
+Theorem C06_read_retry_witness :
+  let m0 := mstate_after m_init [OSet 0 1 10] in
+  let m1 := gc (fst (mstep m0 (OSet 0 1 11))) in
+  read_retry m0 m1 m1 (mktx 0 RC 0) 1 = Some 11 /\ read m1 (mktx 0 RC 0) 1 = Some 11.
+Proof. exact read_retry_witness. Qed.
+
+Theorem C06_read_retry_linearizable :
+  forall m1 m2 m3 x k,
+    (forall v, find_version m1 x k = Some v ->
+       aget (m_cont m2) (v_cid v) = aget (m_cont m1) (v_cid v) \/ aget (m_cont m2) (v_cid v) = None) ->
+    (forall v, find_version m2 x k = Some v -> aget (m_cont m3) (v_cid v) = aget (m_cont m2) (v_cid v)) ->
+    read_retry m1 m2 m3 x k = read m1 x k \/ read_retry m1 m2 m3 x k = read m2 x k.
+Proof. exact read_retry_linearizable. Qed.
+
+(* GetKeys is built the same way and is NOT repaired (known finding D11b): a key that had a value throughout is missing
+   from the listing when its version is superseded and collected between the look-up and the content test *)
+Theorem C06_keys_atomic_refuted :
+  let m0 := mstate_after m_init [OSet 0 1 10] in
+  let m1 := gc (fst (mstep m0 (OSet 0 1 11))) in
+  list_keys m0 (mktx 0 RC 0) = [1] /\ list_keys m1 (mktx 0 RC 0) = [1] /\
+  keys_two_step m0 m1 (mktx 0 RC 0) = [].
+Proof. exact keys_atomic_refuted. Qed.
+
+Theorem C06_keys_linearizable_partial :
+  forall m m' x,
+    (forall k v, find_version m x k = Some v -> aget (m_cont m') (v_cid v) = aget (m_cont m) (v_cid v)) ->
+    keys_two_step m m' x = list_keys m x.
+Proof. exact keys_two_step_partial. Qed.
 
 (* collection and cleaning never touch a version a read can still resolve — between operations *)
 Theorem C06_gc_keeps_resolvable_versions :
@@ -83,9 +114,13 @@ Proof. exact LockSkel.one_critical_section. Qed.
 Print Assumptions C06_atomic_steps_linearize.
 Print Assumptions C06_no_deadlock.
 Print Assumptions C06_fsdb_lock_order.
-Print Assumptions C06_read_atomic_refuted.
+Print Assumptions C06_read_atomic_refuted_orig.
 Print Assumptions C06_read_linearizable_partial.
 Print Assumptions C06_gc_keeps_resolvable_versions.
 Print Assumptions C06_lock_skeleton_ok.
 Print Assumptions C06_acquisitions_ordered.
 Print Assumptions C06_one_critical_section.
+Print Assumptions C06_read_retry_witness.
+Print Assumptions C06_read_retry_linearizable.
+Print Assumptions C06_keys_atomic_refuted.
+Print Assumptions C06_keys_linearizable_partial.
